@@ -98,6 +98,7 @@ type C09Case struct {
 	Down     []int    `json:"down,omitempty"`      // nodes crashed before the searches
 	Cut      [][2]int `json:"cut,omitempty"`       // links blocked before the searches
 	DropResp float64  `json:"drop_resp,omitempty"` // response loss during the searches
+	Remove   int      `json:"remove,omitempty"`    // 1: the crashed node is then removed from the membership, 2: removed first, then taken out of service
 }
 
 func genC09(r *simrt.Rand, tier string) json.RawMessage {
@@ -116,7 +117,15 @@ func genC09(r *simrt.Rand, tier string) json.RawMessage {
 		c.Searches = append(c.Searches, W3Op{K: "search", Node: r.Range(1, c.W3.Nodes), Q: q, N: []int{1, 2, 3, 5, 10, 50}[r.Intn(6)]})
 	}
 	if c.W3.Nodes > 1 && r.Bool(0.35) {
-		switch r.Intn(3) {
+		switch r.Intn(4) {
+		case 3:
+			// the node leaves the membership as well: the catalogue keeps listing it as a replica
+			// (for good when it was the only one), yet nobody has an address for it any more
+			c.Down = []int{r.Range(2, c.W3.Nodes)}
+			c.Remove = r.Range(1, 2)
+			if r.Bool(0.6) {
+				c.W3.Replicas = 1
+			}
 		case 0:
 			c.Down = []int{r.Range(2, c.W3.Nodes)}
 		case 1:
@@ -159,10 +168,31 @@ func execC09(raw json.RawMessage, wantLog bool) (out Outcome) {
 			}
 		}
 		faulty := len(c.Down) > 0 || len(c.Cut) > 0 || c.DropResp > 0
+		removeNode := func(wait time.Duration) {
+			target := s.nodes[c.Down[0]-1]
+			for attempt := 0; attempt < 4; attempt++ {
+				op := s.client(s.nodes[0], fmt.Sprintf("remove-node n%d", target.idx), 8*time.Second, func(ctx context.Context, n *simNode) (interface{}, error) {
+					return n.svcNM.RemoveNode(ctx, &pb.Node{Id: target.id})
+				})
+				s.runUntil(func() bool { return op.done }, 12*time.Second)
+				if op.done && op.err == nil {
+					out.Stat("node_removed_from_membership", 1)
+					break
+				}
+			}
+			s.runFor(wait)
+		}
+		canRemove := c.Remove > 0 && len(c.Down) > 0 && c.Down[0] >= 2 && c.Down[0] <= len(s.nodes) && (len(s.nodes) >= 3 || c.Remove == 2) // a quorum must remain to commit the removal
+		if canRemove && c.Remove == 2 {
+			removeNode(500 * time.Millisecond)
+		}
 		for _, d := range c.Down {
 			if d >= 1 && d <= len(s.nodes) {
 				s.stopNode(s.nodes[d-1], true)
 			}
+		}
+		if canRemove && c.Remove == 1 {
+			removeNode(2 * time.Second)
 		}
 		for _, l := range c.Cut {
 			s.blocked[[2]uint64{uint64(l[0]), uint64(l[1])}] = true
@@ -363,7 +393,12 @@ func shrinkC09(raw json.RawMessage) []json.RawMessage {
 	}
 	if len(c.Down) > 0 || len(c.Cut) > 0 || c.DropResp > 0 {
 		n := c
-		n.Down, n.Cut, n.DropResp = nil, nil, 0
+		n.Down, n.Cut, n.DropResp, n.Remove = nil, nil, 0, 0
+		emit(n)
+	}
+	if c.Remove > 0 {
+		n := c
+		n.Remove = 0
 		emit(n)
 	}
 	return out
@@ -1303,21 +1338,21 @@ func init() {
 		})
 	}
 	mk("C09", "exploration",
-		"case = cluster of 1..4 servers, dataset with 1..8 partitions and 1..3 replicas, 1..14 items, 2..6 dataset searches from any node with k from 1 to beyond the total, yield probability 0..40% at the fan-out/fan-in channel operations, seeded select order; optionally a crashed node, a blocked link or 30% response loss during the searches; the simulator records every SearchPartitions leg; non-trivial = at least one search executed; distinct = hash of the event log",
-		[]string{"dataset_searches", "searches_checked_against_union", "searches_with_several_legs", "legs_checked_against_direct_search", "searches_failed_loudly", "fault_partition", "fault_crash", "fault_drop_response"},
-		genC09, execC09, shrinkC09, 300, 20000)
+		"case = cluster of 1..4 servers, dataset with 1..8 partitions and 1..3 replicas, 1..14 items, 2..6 dataset searches from any node with k from 1 to beyond the total, yield probability 0..40% at the fan-out/fan-in channel operations, seeded select order; optionally a crashed node (which may also be removed from the membership, before or after it goes down, so that no address is known for a listed replica), a blocked link or 30% response loss during the searches; the simulator records every SearchPartitions leg; non-trivial = at least one search executed; distinct = hash of the event log",
+		[]string{"dataset_searches", "searches_checked_against_union", "searches_with_several_legs", "legs_checked_against_direct_search", "searches_failed_loudly", "fault_partition", "fault_crash", "fault_drop_response", "node_removed_from_membership"},
+		genC09, execC09, shrinkC09, 1200, 40000)
 	mk("C10", "exploration",
 		"case = fault-free cluster of 1..4 servers, dataset with 1..8 partitions, 4..14 writes over 3..12 ids issued through random entry nodes (hosting or not hosting the owner) and both API paths (single, batch), optionally a restart of all nodes in the middle; every outcome must equal a sequential map, every id must live in exactly one partition; non-trivial = more than 2 outcomes compared; distinct = hash of the event log",
 		[]string{"outcomes_compared_with_sequential_map", "placements_checked", "node_restarts"},
-		genC10, execC10, shrinkC05, 250, 20000)
+		genC10, execC10, shrinkC05, 800, 30000)
 	mk("C11", "exploration",
 		"case = cluster of 1..3 servers, dataset, 4..12 writes (single/batch, 40% overlapping, 12% with a wrong dimension) in one of four modes: fault-free (exact outcomes and batch error maps vs a sequential map), proposers paused between Propose and their wait until the entry is applied (hook H5), message faults + crash/isolation (an acknowledged success must be applied; porcupine register model), owner node removed from the address book while down; non-trivial = outcomes compared / acknowledged writes; distinct = hash of the event log",
 		[]string{"outcomes_compared_with_sequential_map", "fault_free_exact_outcome_runs", "overlapping_caller_runs", "faulty_runs", "proposers_paused", "acknowledged_writes", "indeterminate_writes", "node_removed_from_membership", "truth_checks_on_surviving_replicas"},
-		genC11, execC11, shrinkC05, 300, 20000)
+		genC11, execC11, shrinkC05, 1200, 40000)
 	mk("C17", "exploration",
 		"case = cluster of 1..4 servers, dataset with 1..6 partitions and 1..3 replicas, 1..16 items (partitions end up with different sizes), SizeInfo asked on every node, yield probability 0..100% at the goroutine starts of the lookup loop; optionally a crashed node or a blocked link; non-trivial = at least one size request; distinct = hash of the event log",
 		[]string{"size_requests", "size_requests_with_remote_lookups", "sizes_checked_against_sum", "partitions_with_different_sizes", "size_failed_loudly", "fault_crash", "fault_partition", "node_removed_from_membership"},
-		genC17, execC17, shrinkC17, 300, 20000)
+		genC17, execC17, shrinkC17, 1200, 40000)
 }
 
 var _ = math.Abs
